@@ -20,6 +20,7 @@ import (
 	"strings"
 	"sync"
 	"sync/atomic"
+	"syscall"
 	"time"
 
 	"verif/sim/simrt"
@@ -41,8 +42,8 @@ type propCfg struct {
 	RaceDiv  int // the race build runs total/RaceDiv worlds
 	// Differential: the per-world comparison digests ("C" lines) of all builds must agree
 	Differential bool
-	Real     []string
-	Stub     []string
+	Real         []string
+	Stub         []string
 }
 
 var stubsCommon = []string{"sync.Pool -> simrt.Pool (tape-chosen recycle/fresh, poison on Put)", "caller-supplied buffers -> simrt arena (exact cap, canary, guard pages)", "GC timing -> explicit runtime.GC() x2 at tape-chosen yields with GODEBUG=clobberfree=1, GOGC=off", "SIMD flavour -> tape-chosen (native.SimUse)"}
@@ -97,7 +98,41 @@ func fatal2(format string, a ...interface{}) {
 }
 
 // buildSim builds (or reuses) the worker for a build flavour and returns its path.
+type builtSim struct {
+	bin, th string
+	st      *overlayStats
+}
+
+var builtSims = map[string]builtSim{}
+
+// lockRepo takes a shared advisory lock that seedrun.sh (which temporarily patches /repo) takes
+// exclusively, so that a long-running check never builds from a tree that is being experimented on.
+func lockRepo() func() {
+	if os.Getenv("VERIF_NOLOCK") != "" {
+		return func() {}
+	}
+	os.MkdirAll(filepath.Join(verifDir, ".build"), 0o755)
+	f, err := os.OpenFile(filepath.Join(verifDir, ".build", "repo.lock"), os.O_CREATE|os.O_RDWR, 0o644)
+	if err != nil {
+		return func() {}
+	}
+	syscall.Flock(int(f.Fd()), syscall.LOCK_SH)
+	return func() { syscall.Flock(int(f.Fd()), syscall.LOCK_UN); f.Close() }
+}
+
+// buildSim builds (or reuses) the worker for a build flavour; one process sees one tree.
 func buildSim(flavour string) (string, string, *overlayStats) {
+	if b, ok := builtSims[flavour]; ok {
+		return b.bin, b.th, b.st
+	}
+	unlock := lockRepo()
+	bin, th, st := buildSim1(flavour)
+	unlock()
+	builtSims[flavour] = builtSim{bin, th, st}
+	return bin, th, st
+}
+
+func buildSim1(flavour string) (string, string, *overlayStats) {
 	th, err := treeHash(repoDir, verifDir)
 	if err != nil {
 		fatal2("tree hash: %v", err)
@@ -112,6 +147,7 @@ func buildSim(flavour string) (string, string, *overlayStats) {
 	stFile := filepath.Join(ovDir, "stats.json")
 	var st overlayStats
 	if _, err := os.Stat(bin); err == nil {
+		os.Chtimes(dir, time.Now(), time.Now()) // in use: keeps a concurrent check from pruning it
 		if b, err := os.ReadFile(stFile); err == nil {
 			json.Unmarshal(b, &st)
 		}
@@ -166,14 +202,14 @@ type violation struct {
 }
 
 type workerSummary struct {
-	Worlds     uint64                 `json:"worlds"`
-	Steps      uint64                 `json:"steps"`
-	Violations int                    `json:"violations"`
-	Wall       float64                `json:"wall_s"`
-	Stats      map[string]uint64      `json:"stats"`
-	Sigs       map[string]uint64      `json:"sigs"`
-	Samples    []interface{}          `json:"samples"`
-	Pools      []string               `json:"pools"`
+	Worlds     uint64            `json:"worlds"`
+	Steps      uint64            `json:"steps"`
+	Violations int               `json:"violations"`
+	Wall       float64           `json:"wall_s"`
+	Stats      map[string]uint64 `json:"stats"`
+	Sigs       map[string]uint64 `json:"sigs"`
+	Samples    []interface{}     `json:"samples"`
+	Pools      []string          `json:"pools"`
 }
 
 type runner struct {
@@ -224,6 +260,7 @@ func (r *runner) runChunk(from, to uint64) {
 		if r.wantDig {
 			args = append(args, "-digests")
 		}
+		os.Chtimes(filepath.Dir(r.bin), time.Now(), time.Now())
 		cmd := exec.Command(r.bin, args...)
 		cmd.Env = workerEnv()
 		var stderr bytes.Buffer
@@ -765,6 +802,13 @@ func cmdCheck(args []string) int {
 		}
 	}
 	var runners []*runner
+	{
+		unlock := lockRepo() // all flavours of one check are built from the same tree
+		for _, sp := range specs {
+			buildSim(sp.build)
+		}
+		unlock()
+	}
 	for _, sp := range specs {
 		bin, th, st := buildSim(sp.build)
 		tree, ovst = th, st
